@@ -10,9 +10,13 @@ Reader side (prove_decode): the decoding statements of load_lmpdat (style switch
 writer was PROVED to put into the records (shared table `records(style)`); proved for both styles and every combination of empty / non-empty
 sections: reading back gives the structure's type ids, molecule groups and charges (full style; zeros for atomic), positions, and every term with
 its type and atoms -- i.e. decode(encode(item)) == item at record level, column order and 1-based / 0-based shifts included.
-The line reader of load_lmpdat (section state machine, str.split, comments), the text <-> number bridge, coefficient strings token for token and the
-byte-identical rewrite are BOUNDED: bounded/C13.py parses the written text with an independent reader, re-reads it with mofun and rewrites it to a
-fixed point (DESIGN C13: a whole-file inductive proof of the line reader is not attempted).
+Line reader (prove_reader): the body of `for unprocessed_line in f:` is executed from an arbitrary reader state on an arbitrary line with the str
+operations as uninterpreted functions (pyvc/models_text.py); proved: the transition relation of the section state machine -- headers open their
+section and store nothing, blank lines end a section unless they follow the header, a record line adds exactly one entry computed from THAT line
+(mass = token 1, label = its comment or None, coefficient = tokens 1.. + its own comment, atom / term record = its tokens) to the list(s) of the
+current section and to no other list, box / tilt lines set their own cell numbers only, and nothing leaks from one line to the next.
+What stays BOUNDED (bounded/C13.py: independent reader, re-read, rewrite to a fixed point): the characters themselves (how split / strip / '%'
+tokenise and format), the text <-> number bridge, and the composition over a whole file in the writer's section order.
 """
 import z3
 
@@ -24,8 +28,9 @@ from contracts import atoms_model as AM
 META = {
     'level': 'proof',
     'explanation': "writer records proved against the structure for arbitrary sizes; the reader's decoding statements proved to invert them (record-level "
-                   "round trip for atoms and all term kinds, both styles); line tokenisation, coefficient strings and the byte-identical rewrite only "
-                   "checked with a stated bound (independent reader + re-read + fixed point)",
+                   "round trip for atoms and all term kinds, both styles); the line loop of the reader proved as a transition relation per line (section state machine, dispatch of records to "
+                   "lists, data flow from the line's own tokens and comment; str operations uninterpreted); the characters (tokenisation, number text), "
+                   "whole-file composition and the byte-identical rewrite only checked with a stated bound (independent reader + re-read + fixed point)",
     'trusted_base': ["'%d' / '%10.6f' formatting and str.split are not interpreted: a record is identified by its format string and argument tuple",
                      "Atoms.label_atoms only produces the trailing comment", "z3 soundness", "pyvc symbolic interpreter"],
 }
@@ -224,10 +229,14 @@ def build(S):
     for style in ('full', 'atomic'):
         S.guarded('save_lmpdat[%s]' % style, lambda style=style: check_style(style))
     prove_decode(S)
+    prove_reader(S)
     S.clause('header counts, type counts, box and tilt lines, section order', 'PROVED on the writer (record level)')
     S.clause('per-item records (ids, types, atoms, coordinates, charge, molecule) written by save_lmpdat', 'PROVED (record level)')
     S.clause('reading the records back reproduces type ids, groups, charges, positions, terms with types (decode o encode = id)', 'PROVED (decoding statements of load_lmpdat; text <-> number bridge assumed)')
-    S.clause('line reader (sections, comments, split), coefficient strings token for token, masses / labels, byte-identical rewrite', 'BOUNDED (independent reader, bounded/C13.py)')
+    S.clause('line reader: section state machine, which list a record goes to, what it is computed from (own tokens, own comment), box / tilt lines',
+             'PROVED per line for every reader state (transition relation of the loop body; str operations uninterpreted)')
+    S.clause('characters of the text (tokenisation, number formatting / parsing), coefficient strings token for token over whole files, byte-identical rewrite',
+             'BOUNDED (independent reader, bounded/C13.py)')
 
 
 # ------------------------------------------------------------------------------------------------
@@ -359,4 +368,163 @@ def _decode(S, style):
             S.add_probe(I, "%s/probe/hypotheses-consistent#%d" % (tag, pi), p.pc)
     if nret == 0:
         raise OutOfSubset("decoding block has no normal path")
+    S.add_interp_obligations(I)
+
+
+# ------------------------------------------------------------------------------------------------
+# reader side: the body of the line loop of load_lmpdat as a transition relation  (state, line) -> state'
+SECTION_LISTS = [            # section header -> (local list, what one record line contributes)
+    ('Masses', 'masses', 'token1'), ('Masses', 'atom_type_labels', 'comment'),
+    ('Pair Coeffs', 'pair_coeffs', 'coeff'), ('Bond Coeffs', 'bond_coeffs', 'coeff'), ('Angle Coeffs', 'angle_coeffs', 'coeff'),
+    ('Dihedral Coeffs', 'dihedral_coeffs', 'coeff'), ('Improper Coeffs', 'improper_coeffs', 'coeff'),
+    ('Atoms', 'atoms', 'tokens'), ('Bonds', 'bonds', 'tokens'), ('Angles', 'angles', 'tokens'), ('Dihedrals', 'dihedrals', 'tokens'),
+    ('Impropers', 'impropers', 'tokens')]
+CELL_LINES = [('xlo xhi', ['cellx']), ('ylo yhi', ['celly']), ('zlo zhi', ['cellz']), ('xy xz yz', ['cellxy', 'cellxz', 'cellyz'])]
+
+
+def prove_reader(S):
+    S.guarded('load_lmpdat line reader', lambda: _reader(S))
+
+
+def _reader(S):
+    """One iteration of `for unprocessed_line in f:` from an ARBITRARY reader state (current section or none, start flag, the twelve lists of
+    arbitrary length and content, the six cell numbers, arbitrary stale values in every other variable the body assigns) on an ARBITRARY line.
+    Text operations are uninterpreted functions (pyvc/models_text.py).  Proved: the transition relation of the section state machine --
+      header line (text before '#', stripped, is one of the 11 section names): that section becomes current, the start flag is set, nothing is stored;
+      blank line: ends the section unless it directly follows the header; nothing is stored;
+      record line: exactly the list(s) of the CURRENT section grow by exactly one entry computed from THIS line (mass = token 1, label = the
+        comment or None, coefficient = tokens 1.. joined by blanks + blank-padded '#' + comment, or nothing when there is no comment; atom / term
+        records = the tokens), every other list, the section and the flag are unchanged;
+      outside a section: a line with one of the four box markers sets that cell number (those three for the tilt line) from its first tokens and
+        nothing else; any other line changes nothing."""
+    from pyvc import models_text as MT
+    from pyvc.values import SymOpt
+    from pyvc.interp import ContinueSig
+    from pyvc.execctx import assigned_names
+    I = S.interp()
+    I.allow_merge = False
+    models_py.install(I)
+    MT.install(I)
+    reg = I.reg
+    mod = I.module(REL)
+    fn = mod.find('Atoms.load_lmpdat')
+    loops = [n for n in fn.body if isinstance(n, ast.For) and ast.unparse(n.iter) == 'f' and isinstance(n.target, ast.Name)]
+    tables = [n for n in fn.body if isinstance(n, ast.Assign) and ast.unparse(n.targets[0]) == 'sections_handled']
+    if len(loops) != 1 or len(tables) != 1 or loops[0].orelse:
+        raise OutOfSubset("line loop `for ... in f` / sections_handled of load_lmpdat not found (contract no longer applies)")
+    loop = loops[0]
+    try:
+        handled = ast.literal_eval(tables[0].value)
+    except Exception:
+        raise OutOfSubset("sections_handled is not a literal list")
+    tag = 'load_lmpdat/line'
+    lit = lambda s: reg.strlit(s)
+    LISTS = list(dict.fromkeys(n for _, n, _ in SECTION_LISTS))
+    CELLS = [c for _, cs in CELL_LINES for c in cs]
+
+    def thunk():
+        L = z3.Const('the_line', StrS)
+        env = {loop.target.id: Sym(L), 'sections_handled': list(handled),
+               'current_section': SymOpt(z3.Bool('no_section0'), Sym(z3.Const('section0', StrS))), 'start_section': Sym(z3.Bool('start0'))}
+        pre = {}
+        for n in LISTS:
+            ln = z3.Int('len_' + n)
+            I.assume(ln >= 0)
+            pre[n] = env[n] = SymSeq(ln, [z3.Array('old_' + n, INT, StrS)], None, 'list', n)
+        for c in CELLS:
+            pre[c] = env[c] = Sym(z3.Real(c + '0'))
+        names, attrs = assigned_names(loop.body)
+        if attrs:
+            raise OutOfSubset("the line loop assigns attributes")
+        for n in sorted(names - set(env)):
+            env[n] = Sym(z3.Const('stale_' + n, StrS))         # whatever an earlier iteration left there
+        ctx = I.block_ctx(REL, 'Atoms.load_lmpdat', env)
+        try:
+            ctx.exec_block(loop.body)
+        except ContinueSig:
+            pass
+        post = {n: ctx.lookup(n) for n in LISTS + CELLS + ['current_section', 'start_section']}
+        return L, pre, env, post
+
+    paths = I.explore(thunk, max_paths=400)
+    strip = lambda t: I.lib._strfun('str.strip()', lambda s: s.strip(), Sym(t)).e
+    num = lambda t: reg.ufunc('float_of_str', StrS, REAL)(t)
+    fmt2 = reg.ufunc('fmt[%s%s]', StrS, StrS, StrS)
+    nret = 0
+    for pi, p in enumerate(paths):
+        if p.outcome != 'return':
+            raise OutOfSubset("the body of the line loop raises %r on some line" % (p.value,))
+        nret += 1
+        L, pre, env, post = p.value
+        body = strip(MT.before(reg, '#', L))
+        H = MT.has_sub(reg, '#', L)
+        cmt = strip(MT.after(reg, '#', L))
+        # literals of the program that qualify as "blank-padded '#'" / "blanks": the spec does not fix the amount of padding
+        hashes = [c for s_, c in reg.strlits.items() if s_.strip() == '#'] or [lit('   # ')]
+        blanks = [c for s_, c in reg.strlits.items() if s_ != '' and s_.strip() == ''] or [lit(' ')]
+        none0, sec0, start0 = z3.Bool('no_section0'), z3.Const('section0', StrS), z3.Bool('start0')
+        in_sec = lambda name: z3.And(z3.Not(none0), sec0 == lit(name))
+        is_sec = z3.Or(*[body == lit(s_) for s_ in dict.fromkeys(s for s, _, _ in SECTION_LISTS)])
+        is_blank = body == lit('')
+        rec = z3.And(z3.Not(is_sec), z3.Not(is_blank))
+
+        def opt(v):
+            if v is None:
+                return z3.BoolVal(True), sec0
+            if isinstance(v, SymOpt):
+                return v.is_none, to_z3(v.val, sort=StrS)
+            return z3.BoolVal(False), to_z3(v, sort=StrS)
+
+        def same(n):
+            a, b = post[n], pre[n]
+            if a is b:
+                return z3.BoolVal(True)
+            if isinstance(b, SymSeq):
+                return z3.And(a.length == b.length, a.cols[0] == b.cols[0]) if isinstance(a, SymSeq) else z3.BoolVal(False)
+            return to_z3(a, sort=REAL) == to_z3(b, sort=REAL)
+
+        def grown(n, elems):
+            a, b = post[n], pre[n]
+            if not isinstance(a, SymSeq):
+                return z3.BoolVal(False)
+            return z3.And(a.length == b.length + 1, z3.Or(*[a.cols[0] == z3.Store(b.cols[0], b.length, e) for e in elems]))
+        n1, s1 = opt(post['current_section'])
+        st1 = to_z3(post['start_section']) if not isinstance(post['start_section'], bool) else z3.BoolVal(post['start_section'])
+        untouched = z3.And(*[same(n) for n in LISTS + CELLS])
+        add = lambda name, goal, clause: S.add(I, "%s/%s#%d" % (tag, name, pi), p.pc, goal, clause=clause)
+        add('header-line-opens-its-section-and-stores-nothing', z3.Implies(is_sec, z3.And(z3.Not(n1), s1 == body, st1, untouched)),
+            'line reader: a section header makes that section current')
+        add('blank-line-ends-the-section-unless-it-follows-the-header', z3.Implies(z3.And(z3.Not(is_sec), is_blank), z3.And(
+            z3.If(start0, z3.And(n1 == none0, z3.Or(n1, s1 == sec0)), n1), z3.Not(st1), untouched)),
+            'line reader: blank lines delimit sections')
+        add('record-line-keeps-section-and-flag', z3.Implies(rec, z3.And(n1 == none0, z3.Or(n1, s1 == sec0), st1 == start0)),
+            'line reader: records do not change the section')
+        for name in LISTS:
+            mine = [(sec, what) for sec, n, what in SECTION_LISTS if n == name]
+            sec, what = mine[0]
+            if what == 'token1':
+                elems = [MT.tok(reg, body, 1)]
+            elif what == 'comment':
+                elems = [z3.If(H, cmt, MT.none_text(reg))]
+            elif what == 'tokens':
+                elems = [body]          # the token list of this line (lists of token lists are represented by the lines, see models_text)
+            else:
+                elems = [fmt2(MT.joined(reg, b, body, 1), z3.If(H, MT.concat(reg, h, cmt), lit(''))) for b in blanks for h in hashes]
+            add('record-goes-to-the-list-of-its-section-only/%s' % name,
+                z3.Implies(rec, z3.If(in_sec(sec), grown(name, elems), same(name))),
+                'line reader: a record line adds exactly one entry, computed from this line, to the list(s) of the current section and to no other')
+        marks = [MT.has_sub(reg, m, body) for m, _ in CELL_LINES]
+        for mi, (m, cs) in enumerate(CELL_LINES):
+            only = z3.And(rec, none0, marks[mi], *[z3.Not(x) for j, x in enumerate(marks) if j != mi])
+            if len(cs) == 1:
+                val = [to_z3(post[cs[0]], sort=REAL) == num(MT.tok(reg, body, 1)) - num(MT.tok(reg, body, 0))]
+            else:
+                val = [to_z3(post[c], sort=REAL) == num(MT.tok(reg, body, i)) for i, c in enumerate(cs)]
+            add('box-line-sets-its-cell-numbers-only/%s' % m.replace(' ', '-'),
+                z3.Implies(only, z3.And(*(val + [same(c) for c in CELLS if c not in cs]))), 'line reader: box and tilt lines')
+        add('other-lines-change-no-cell-number', z3.Implies(z3.Or(z3.Not(rec), z3.Not(none0), z3.Not(z3.Or(*marks))), z3.And(*[same(c) for c in CELLS])),
+            'line reader: box and tilt lines')
+        S.add_canary(I, "%s/canary#%d" % (tag, pi), [h for h in p.pc if not z3.is_quantifier(h)])
+    if nret == 0:
+        raise OutOfSubset("the body of the line loop has no normal path")
     S.add_interp_obligations(I)
